@@ -76,13 +76,29 @@ def full(binp, corpus, idx, strict):
 def run(core, tier, replay):
     prop = "C20"
     t0 = time.time()
+    scratch = scratch_dir()
+    # the regenerated crate is built in the background while the harness builds and the corpus is written
+    import threading
+    regen_res = {}
+
+    def build_regenerated():
+        pv, err = make_regenerated(core, scratch)
+        regen_res["pv"], regen_res["err"] = pv, err
+        if pv is not None:
+            tb = time.time()
+            regen_res["rc"], regen_res["out"] = core.cargo_build([], target_dir=os.path.join(scratch, "target"), cwd=pv)
+            regen_res["build_s"] = time.time() - tb
+
+    th = threading.Thread(target=build_regenerated)
+    th.start()
     rc, out = core.cargo_build(["vmain", "vprobe"])
     if rc != 0:
+        th.join()
+        shutil.rmtree(scratch, ignore_errors=True)
         print(out[-4000:])
         print("MACHINERY-ERROR: the harness does not build against the current /repo tree")
         core.write_fail_evidence(prop, tier, "harness build failed")
         return 2
-    scratch = scratch_dir()
     try:
         corpus = os.path.join(scratch, "corpus.bin")
         vmain = os.path.join(core.HARNESS, "target", "release", "vmain")
@@ -92,14 +108,13 @@ def run(core, tier, replay):
             core.write_fail_evidence(prop, tier, "corpus dump failed")
             return 2
         n_inputs = int(r.stdout.split()[0])
-        pv, err = make_regenerated(core, scratch)
+        th.join()
+        pv, err = regen_res.get("pv"), regen_res.get("err")
         if pv is None:
-            print("MACHINERY-ERROR: " + err)
-            core.write_fail_evidence(prop, tier, err)
+            print("MACHINERY-ERROR: " + str(err))
+            core.write_fail_evidence(prop, tier, str(err))
             return 2
-        tb = time.time()
-        rc, out = core.cargo_build([], target_dir=os.path.join(scratch, "target"), cwd=pv)
-        build_s = time.time() - tb
+        rc, out, build_s = regen_res["rc"], regen_res["out"], regen_res["build_s"]
         if rc != 0:
             # the shipped crate builds (vmain did), the regenerated one does not: regenerating changes something observable
             import c19
@@ -172,4 +187,5 @@ def run(core, tier, replay):
         print(f"{prop} {tier}: inputs={n_inputs} transcripts={2*n_inputs} differing={len(diffs)} violations={nviol} regenerated_build={build_s:.0f}s wall={time.time()-t0:.0f}s")
         return 1 if nviol else 0
     finally:
+        th.join()
         shutil.rmtree(scratch, ignore_errors=True)
